@@ -121,7 +121,7 @@ func NewWorld(r *rand.Rand, spec WorldSpec) (*World, F) {
 				f = FNot{FAnd{ops}} // dual: negated conjunction of conjunctions
 			}
 			f = ensureLeaves(f, atoms, quants, r)
-			if b, t := w.Cost(f, false); b <= 250 && t <= 1600 {
+			if b, t := w.Cost(f, false); b <= 100 && t <= 500 {
 				root = f
 				break
 			}
